@@ -124,8 +124,10 @@ def partial_trace_is_contraction(input_mat, sys, dim, result):
         ok = res.shape == exp.shape and bool(np.array_equal(res, exp))
         dev = 0.0 if ok else float("inf")
     else:
-        scale = 1 + float(np.abs(x).max()) * max(d)
+        scale = float(np.abs(x).max()) * max(d) or 1.0  # the natural magnitude of a sum of max(d) entries (inputs are probed at scales 1e-16 .. 1e8)
         dev = float(np.abs(res - exp).max()) / scale if res.shape == exp.shape else float("inf")
+        if x.dtype.kind == "c" and res.dtype.kind != "c":
+            dev = float("inf")  # a complex operator has a complex partial trace, however small its imaginary parts
         ok = dev <= 1e-9
     mech = "partial_trace:contraction"
     narrow = x.dtype.kind in "iu" and x.dtype.itemsize < 8
